@@ -1,7 +1,9 @@
 import props as _props
+from locks_gen import regen_locks
 
 PROP = {
-    "coq": ["C10"],
+    "coq": ["C10", "C10b"],
+    "pre": [regen_locks],
     "extra": [_props.race_detector_run("C10")],
     "exhaustive": False,
     "rule": "Real server on loopback TCP: fixed and seeded random traces mixing Start, Stop, connect, held accept goroutine across "
@@ -12,7 +14,7 @@ PROP = {
 }
 
 CLAIM = {
-  "text": "Coq theorems over the lifecycle transition system (all interleavings of Start/Stop with arrivals, requests, disconnects): Stop closes the listener and every connection of the active list; in every reachable stopped state no request of any connection can reach a handler, including a connection accepted before and enrolled after Stop (refused: the started flag is tested inside the critical section); Start;Start = Start, Stop;Stop = Stop, Stop;Start serves again; after Stop every server goroutine has an exit path of at most two steps and terminal connections have no step left. The real server is steered through such traces (accept goroutine held across Stop) and compared step by step.",
-  "note": "partial: the data-race clause rests on fix a9c5ec5 (listener handed to the accept goroutine) and is not yet covered by a generated lock skeleton; goroutine liveness is modelled as exit paths, handlers that never return are outside the model. Trusted: kernel, extraction, harness, yield hooks.",
+  "text": "Coq theorems over the lifecycle transition system (all interleavings of Start/Stop with arrivals, requests, disconnects): Stop closes the listener and every connection of the active list; in every reachable stopped state no request of any connection can reach a handler, including a connection accepted before and enrolled after Stop (refused: the started flag is tested inside the critical section); Start;Start = Start, Stop;Stop = Stop, Stop;Start serves again; lock discipline of the generated server skeleton (c10b_*: mutual exclusion, no data race on the shared fields); after Stop every server goroutine has an exit path of at most two steps and terminal connections have no step left. The real server is steered through such traces (accept goroutine held across Stop) and compared step by step.",
+  "note": "partial: the data-race clause is decided on the lock skeleton regenerated from server.go on every run (C10b: every access of Start/Stop/acceptTCPClients/handleTCPClient to started, tcpListener, tcpClients is under the mutex) plus a race-detector run of the scenarios; the extractor and the Go memory model are trusted; goroutine liveness is modelled as exit paths, handlers that never return are outside the model. Trusted: kernel, extraction, harness, yield hooks.",
   "technique": "Coq proof (invariants over all step sequences, idempotence lemmas) + steered real-server trace correspondence",
 }
